@@ -12,6 +12,7 @@ import copy
 import itertools
 
 import numpy as np
+from fractions import Fraction
 
 from pvc.sym import R, syms, sym_array
 
@@ -482,4 +483,75 @@ def scheme_families(rep, tier="quick"):
 
     rep.under_contract(cf.Combiner.collect, cf.Combiner.heavy_components, cf.Combiner.light_component)
     parallel(rep, list(lattice(tier)), _scheme_families_worker)
+
+
+def eko_basis_standin(rep):
+    """Stand-in for assumption A-eko, bounded in the GRID (six grids: linear/logarithmic, degree 1-3,
+    4-7 nodes) but not in x: eko's real evaluate_x / log_evaluate_x -- the functions yadism's quadrature
+    kernels call -- are executed on a symbolic x over the whole interval [x_0, 1] (every area, every
+    border case is a path) and z3 proves on each path that the basis functions sum to one; the area
+    polynomials are continuous at every interior border, vanish at the outer borders of their support,
+    and p_j(x_k) = delta_jk.  Labelled bounded: never counted as discharged."""
+    from eko import interpolation
+    from eko.interpolation import InterpolatorDispatcher, XGrid
+    from pvc.core import Ob, PROVED, REFUTED, UNDECIDED
+    from pvc.explore import explore
+    from pvc.smt import prove
+    from pvc.sym import And, compare
+
+    x = R.var("x")
+    tol = R.const(Fraction(1, 10**9))
+    grids = (
+        (False, [0.1, 0.3, 0.5, 0.7, 1.0], 1), (False, [0.1, 0.3, 0.5, 0.7, 1.0], 2), (False, [0.05, 0.2, 0.4, 0.6, 0.8, 1.0], 3),
+        (True, [1e-3, 1e-2, 0.1, 0.4, 0.7, 1.0], 1), (True, [1e-3, 1e-2, 0.1, 0.4, 0.7, 1.0], 3), (True, [1e-4, 1e-3, 1e-2, 0.1, 0.3, 0.6, 1.0], 2),
+    )
+    for is_log, grid, deg in grids:
+        tag = f"{'log' if is_log else 'lin'}-grid({len(grid)} nodes, degree {deg})"
+        interp = InterpolatorDispatcher(XGrid(grid, is_log), deg, mode_N=False)
+        f = interpolation.log_evaluate_x if is_log else interpolation.evaluate_x
+        pre = [x >= grid[0], x <= 1]
+        if is_log:
+            # the comparisons are made in log space on doubles: log is monotone, so log(x) lies between
+            # the (double) logarithms of the end nodes
+            from pvc.sym import fn as _fn
+
+            pre += [_fn("log", x) >= float(np.log(grid[0])), _fn("log", x) <= 0]
+        try:
+            paths = explore(lambda: [f(x, bf.areas_representation) for bf in interp], pre, max_paths=512)
+            bad, und = [], 0
+            for p in paths:
+                if p.exc is not None:
+                    bad.append(f"raises {p.exc!r}")
+                    continue
+                tot = sum((R.lift(v) for v in p.result), R.const(0))
+                st, model, _b = prove(pre + list(p.pc), And(compare("<=", tot - 1, tol), compare("<=", 1 - tot, tol)), 10000)
+                if st == "refuted":
+                    bad.append(f"sum != 1 at {model}")
+                elif st != "proved":
+                    und += 1
+            o = Ob(f"{rep.pid}/A-eko[bounded in the grid]/{tag}/partition of unity for every x in [x0, 1]", "bounded", PROVED if not bad and not und else (REFUTED if bad else UNDECIDED), "z3", 0, f"{len(paths)} paths (areas and border cases)" + (f"; {bad[:2]}" if bad else "") + (f"; {und} undecided" if und else ""))
+        except Exception as e:  # noqa
+            o = Ob(f"{rep.pid}/A-eko[bounded in the grid]/{tag}/partition of unity for every x in [x0, 1]", "bounded", UNDECIDED, "engine", 0, f"{type(e).__name__}: {e}")
+        o.bounded = True
+        rep.add(o)
+        # borders and nodes (concrete: the area polynomials are concrete doubles)
+        nodes = np.log(grid) if is_log else np.array(grid)
+        bad = []
+        for j, bf in enumerate(interp):
+            ar = np.array(bf.areas_representation)
+            ev = lambda a, t: sum(c * t**i for i, c in enumerate(a[2:]))  # noqa: E731
+            for a, b in zip(ar[:-1], ar[1:]):
+                if abs(a[1] - b[0]) < 1e-14 and abs(ev(a, a[1]) - ev(b, b[0])) > 1e-9:
+                    bad.append(("jump", j, float(a[1])))
+            lo, hi = ar[0][0], ar[-1][1]
+            if abs(lo - nodes[0]) > 1e-12 and abs(ev(ar[0], lo)) > 1e-9:
+                bad.append(("non-zero at lower support border", j, float(lo)))
+            if abs(hi - nodes[-1]) > 1e-12 and abs(ev(ar[-1], hi)) > 1e-9:
+                bad.append(("non-zero at upper support border", j, float(hi)))
+            for k, xk in enumerate(grid):
+                if abs(float(bf(xk)) - (1.0 if j == k else 0.0)) > 1e-9:
+                    bad.append(("p_j(x_k) != delta_jk", j, k))
+        o = Ob(f"{rep.pid}/A-eko[bounded in the grid]/{tag}/continuous at area borders, zero at support borders, p_j(x_k) = delta_jk", "bounded", PROVED if not bad else REFUTED, "eval", 0, str(bad[:3]) if bad else f"{len(grid)} basis functions")
+        o.bounded = True
+        rep.add(o)
 
